@@ -17,6 +17,8 @@ import (
 
 // Engine holds the loaded program, the contracts and the output of a run.
 type Engine struct {
+	codecChecked map[*CodecDecl]bool
+	UsedLemmas   []string // lemma functions whose codec declaration was used as a summary (must be verified by the same check)
 	tb      *TB
 	Prog    *ssa.Program
 	Pkgs    map[string]*packages.Package
